@@ -7,23 +7,23 @@
         ->  hyp=<0|1> model=<domainEq><suite> rung=<index of the rung that produced the result> err=<0|1>
         The k rungs are the (source, reference) pairs that the implementation's own public
         transformations produce along the retry ladder (original, [extended], sorted points, sorted
-        cells); the model runs the ladder's control flow (`Spec.ladder`) over this chain and evaluates
-        the domain check (`Fc.equals`) and the field comparisons (`Spec.fieldsPass`) on each visited rung.
+        cells); the model runs the ladder's control flow (`ladder`) over this chain and evaluates
+        the domain check (`Fc.C16.equals`) and the field comparisons (`fieldsPass`) on each visited rung.
   fields := <npf> { <name> array } <ncf> { <name> <type> array }
 -/
 import Driver.OpsC16
 import FcModel.Spec.C03
-namespace Fc.Drv
-open Fc
+namespace Fc.Drv.C03
+open Fc Fc.Drv Fc.C03 Fc.C16 Fc.Drv.C16
 
 def opC03Eq : P String := do
   let rel ← pNat
   let abs ← pNat
   let a ← pMesh
   let b ← pMesh
-  let hyp := a.wfEq && b.wfEq
+  let hyp := (wfEq a) && (wfEq b)
   let m := meshEqualWith rel abs a b
-  let spec := showVerdict (.ok (Spec.meshEqualSpec rel abs a b))
+  let spec := showVerdict (.ok (meshEqualSpec rel abs a b))
   pure s!"hyp={showBool hyp} model={showVerdict m} spec={if hyp then spec else "-"}"
 
 /-- one side of one rung -/
@@ -46,10 +46,10 @@ def compareSides (s r : Chain) : Bool × Bool :=
   match s, r with
   | (_, x) :: _, (_, y) :: _ =>
     let dom := equals x.dom y.dom == .ok true
-    (dom, dom && Spec.fieldsPass x.fields y.fields)
+    (dom, dom && fieldsPass x.fields y.fields)
   | _, _ => (false, false)
 
-def chainOps : Spec.LadderOps Chain where
+def chainOps : LadderOps Chain where
   spaceDim := fun c => match c with
     | (_, x) :: _ => x.fields.mesh.dim
     | [] => 0
@@ -67,7 +67,7 @@ def opC03Ladder : P String := do
   let idx := List.range k
   let cs : Chain := List.zip idx (rungs.map (·.1))
   let cr : Chain := List.zip idx (rungs.map (·.2))
-  let res := Spec.ladder chainOps ⟨dr, dd⟩ cs cr
+  let res := ladder chainOps ⟨dr, dd⟩ cs cr
   let err := rungs.any fun p => equals p.1.dom p.2.dom == .err
   let hyp := rungs.all fun p => anyOk p.1.dom && anyOk p.2.dom
   -- the ladder must never run off the precomputed chain
@@ -82,4 +82,6 @@ def handleC03 (op : String) : Option (P String) :=
   | "c03ladder" => some opC03Ladder
   | _ => none
 
-end Fc.Drv
+end Fc.Drv.C03
+
+def Fc.Drv.handleC03 := Fc.Drv.C03.handleC03
